@@ -484,3 +484,51 @@ func ReferenceStack(defaults reflect.Value, layers []*Layer) reflect.Value {
 	}
 	return out
 }
+
+// SpecFromType describes an existing (static) struct type as a Spec so that
+// the by-name helpers work on it. Leaf types must be in the Leaves pool.
+func SpecFromType(t reflect.Type) *Spec {
+	s := &Spec{typ: t}
+	for i := 0; i < t.NumField(); i++ {
+		sf := t.Field(i)
+		f := &Field{Name: sf.Name, Parent: s, Index: i, Tags: map[string]string{}}
+		if v, ok := sf.Tag.Lookup("dials"); ok {
+			f.Tags["dials"] = v
+		}
+		switch {
+		case sf.PkgPath != "":
+			f.Kind = KSkipUnexported
+		case sf.Tag.Get("dials") == "-":
+			f.Kind = KSkipDash
+		case sf.Type.Kind() == reflect.Struct && leafForType(sf.Type) == nil:
+			f.Kind = KStruct
+			if sf.Anonymous {
+				f.Kind = KEmbStruct
+			}
+			f.Sub = SpecFromType(sf.Type)
+		case sf.Type.Kind() == reflect.Ptr && sf.Type.Elem().Kind() == reflect.Struct && leafForType(sf.Type) == nil:
+			f.Kind = KPtrStruct
+			if sf.Anonymous {
+				f.Kind = KEmbPtrStruct
+			}
+			f.Sub = SpecFromType(sf.Type.Elem())
+		default:
+			f.Kind = KLeaf
+			f.Leaf = leafForType(sf.Type)
+			if f.Leaf == nil {
+				panic("harness: no leaf kind for " + sf.Type.String())
+			}
+		}
+		s.Fields = append(s.Fields, f)
+	}
+	return s
+}
+
+func leafForType(t reflect.Type) *Leaf {
+	for _, l := range Leaves {
+		if l.Type == t {
+			return l
+		}
+	}
+	return nil
+}
